@@ -16,6 +16,7 @@ import (
 	"strconv"
 	"strings"
 	"sync"
+	"sync/atomic"
 	"syscall"
 	"testing"
 	"testing/cryptotest"
@@ -567,6 +568,7 @@ func executeEch(t *testing.T, prop string, seed uint64, p *EchPlan) *core.Result
 	var retSeq, retT int64
 	var panicS, panicAt string
 	var libLeft, other []string
+	var retNilNil atomic.Bool
 	msg := core.Bubble(t, func(t *testing.T) {
 		g0 := runtime.NumGoroutine()
 		es.rs = &raceState{t0: time.Now()}
@@ -596,6 +598,18 @@ func executeEch(t *testing.T, prop string, seed uint64, p *EchPlan) *core.Result
 					return nil, errors.New("harness: no *tls.Conn to give")
 				}
 				return nil, err
+			}
+			// net/http dereferences what DialTLSContext returns on a goroutine of
+			// its own: a (nil, nil) from Dial (C18's business) must not take the
+			// worker down with it
+			dialTLS := tr.HTTPTransport.DialTLSContext
+			tr.HTTPTransport.DialTLSContext = func(ctx context.Context, network, addr string) (net.Conn, error) {
+				c, err := dialTLS(ctx, network, addr)
+				if tc, ok := c.(*tls.Conn); ok && tc == nil && err == nil {
+					retNilNil.Store(true)
+					return nil, errors.New("harness: Dial returned (nil, nil)")
+				}
+				return c, err
 			}
 			_, panicS, panicAt = core.Guard(func() {
 				req, err := http.NewRequestWithContext(ctx, "GET", "https://"+strings.TrimSpace(addr)+"/", nil)
@@ -695,9 +709,17 @@ func executeEch(t *testing.T, prop string, seed uint64, p *EchPlan) *core.Result
 		judgeEch(tmp, "C17", p, es, caller, before, retConn, retErr, retSeq, retT, len(up.queries), resolverFault || len(p.Zone.Fail) > 0)
 		res.LogHash, res.Sig, res.Arbitrated, res.NonTrivial, res.Sample = tmp.LogHash, tmp.Sig, tmp.Arbitrated, tmp.NonTrivial, tmp.Sample
 		judgeEchTimeouts(res, prop, es, timeout, retT)
+		// ... and for what Dial hands back when attempts end in ECH rejections:
+		// a connection some attempt produced, or an error - never neither
+		if retConn == nil && retErr == nil && !p.ViaTransport {
+			res.Fail(prop, "result", "Dial returned neither a connection nor an error", "address %s: (nil, nil) at %v after %d DialFunc calls", addr, time.Duration(retT), len(es.calls))
+		}
 		return res
 	}
 	judgeEch(res, prop, p, es, caller, before, retConn, retErr, retSeq, retT, len(up.queries), resolverFault || len(p.Zone.Fail) > 0)
+	if retNilNil.Load() {
+		res.Probe("dial_returned_nil_nil") // C18's clause; the C18 check judges it on its own plans
+	}
 	return res
 }
 
